@@ -1,3 +1,4 @@
 import Arp.Props.C13
 import Arp.Props.C13Limbs
+import Arp.Props.C13LimbsWide
 /-! umbrella module of property C13 -/
